@@ -418,6 +418,14 @@ class _Return(Exception):
         self.v = v
 
 
+class _Continue(Exception):
+    pass
+
+
+class _Break(Exception):
+    pass
+
+
 ELEMENTWISE_IDENTITY = {"astensor", "tile", "reshape", "tolist", "asarray", "array", "ravel", "broadcast_to", "to_numpy", "float", "transpose", "squeeze", "expand_dims", "copy", "detach", "constant", "convert_to_tensor", "cast", "as_tensor", "tensor"}
 OPAQUE_FNS = {"log", "exp", "sqrt", "xlogy", "gammaln", "lgamma", "erf", "erfc", "normal_cdf", "log1p", "expm1", "ndtr", "log_ndtr"}
 MODULE_NAMES = {"tensorlib", "default_backend", "np", "numpy", "math", "jnp", "tb", "torch", "tf", "special", "scipy", "jax", "tfp", "self"}
@@ -490,24 +498,30 @@ class Interp:
             self.exec_block(st.body if c else st.orelse)
         elif isinstance(st, ast.For):
             it = self.eval(st.iter)
+            if isinstance(it, dict):
+                it = list(it.keys())
             if not isinstance(it, (list, tuple)):
                 raise Undecided("loop over a non-literal iterable")
             for x in it:
                 self.assign(st.target, x)
-                self.exec_block(st.body)
+                try:
+                    self.exec_block(st.body)
+                except _Continue:
+                    continue
+                except _Break:
+                    break
+        elif isinstance(st, ast.Continue):
+            raise _Continue()
+        elif isinstance(st, ast.Break):
+            raise _Break()
         elif isinstance(st, (ast.Expr, ast.Assert, ast.Pass)):
             if isinstance(st, ast.Expr) and isinstance(st.value, ast.Call):
-                c = st.value
-                # list.append / list.extend on a local list value; externals are evaluated for their effect;
-                # other side-effecting calls (self._precompute_alphasets(...), log.warning) are not modelled
-                if isinstance(c.func, ast.Attribute) and c.func.attr in ("append", "extend") and isinstance(c.func.value, ast.Name) and isinstance(self.env.get(c.func.value.id), list):
-                    v = self.eval(c.args[0])
-                    if c.func.attr == "append":
-                        self.env[c.func.value.id].append(v)
-                    else:
-                        self.env[c.func.value.id].extend(v)
-                elif A.call_attr(c) in self.externals or ("." + (A.call_attr(c) or "")) in self.externals:
-                    self.eval(c)
+                # effects on local containers (append/add/setdefault...) and modelled externals are evaluated;
+                # calls outside the fragment (log.warning, self._precompute_alphasets(...)) have no modelled effect
+                try:
+                    self.eval(st.value)
+                except Undecided:
+                    pass
         elif isinstance(st, ast.Try):
             # the normal (non-raising) path: body, else, finally
             self.exec_block(st.body)
@@ -572,8 +586,10 @@ class Interp:
     def binop(self, op, a, b):
         if isinstance(a, (list, tuple)) and isinstance(b, (list, tuple)) and isinstance(op, ast.Add):
             return list(a) + list(b)
-        if isinstance(a, list) and isinstance(op, ast.Mult) and isinstance(b, Poly) and b.is_const():
+        if isinstance(a, (list, tuple)) and isinstance(op, ast.Mult) and isinstance(b, Poly) and b.is_const():
             return a * int(b.const_value())
+        if isinstance(b, (list, tuple)) and isinstance(op, ast.Mult) and isinstance(a, Poly) and a.is_const():
+            return b * int(a.const_value())
         a, b = to_poly(a), to_poly(b)
         if isinstance(op, ast.Add):
             return a + b
@@ -764,6 +780,8 @@ class Interp:
                 return
             g = gens[i]
             it = self.eval(g.iter)
+            if isinstance(it, dict):
+                it = list(it.keys())
             if not isinstance(it, (list, tuple)):
                 raise Undecided("comprehension over a non-literal iterable")
             for x in it:
@@ -811,6 +829,17 @@ class Interp:
                 return fn(f.attr, Poly.atom(recv.name), *xa)
             if isinstance(recv, Poly) and f.attr in ("detach", "numpy", "clone", "cpu", "item", "copy"):
                 return recv
+            if isinstance(recv, (set, list)) and f.attr in ("add", "pop", "append", "extend", "index", "count", "copy", "update", "discard"):
+                return getattr(recv, f.attr)(*[self.eval(a) for a in e.args])
+            if isinstance(recv, dict) and f.attr == "setdefault":
+                k = self.eval(e.args[0])
+                if k not in recv:
+                    recv[k] = self.eval(e.args[1]) if len(e.args) > 1 else None
+                return recv[k]
+            if isinstance(recv, str) and f.attr in ("split", "lower", "upper", "strip", "startswith", "endswith"):
+                return getattr(recv, f.attr)(*[self.eval(a) for a in e.args])
+            if isinstance(recv, dict) and f.attr in ("items", "keys", "values"):
+                return [tuple(kv) for kv in recv.items()] if f.attr == "items" else (list(recv.keys()) if f.attr == "keys" else list(recv.values()))
             if isinstance(recv, dict) and f.attr in ("get", "pop", "setdefault"):
                 k = self.eval(e.args[0])
                 if k in recv:
@@ -929,11 +958,15 @@ class Interp:
             return [(Poly.const(i), x) for i, x in enumerate(s)]
         if name == "len":
             s = ev(args[0])
-            if isinstance(s, (list, tuple)):
+            if isinstance(s, (list, tuple, set, dict, str)):
                 return Poly.const(len(s))
             raise Undecided("len of a tensor")
         if name in ("list", "tuple"):
             s = ev(args[0]) if args else []
+            if isinstance(s, dict):
+                s = list(s.keys())
+            if isinstance(s, set):
+                s = sorted(s, key=str)
             if isinstance(s, (list, tuple)):
                 return list(s) if name == "list" else tuple(s)
             raise Undecided("list()")
@@ -958,8 +991,16 @@ class Interp:
             if isinstance(src, (list, tuple)) and isinstance(idx, (list, tuple)):
                 return [src[int(to_poly(i).const_value())] for i in idx]
             return fn("gather", to_poly(src), to_poly(idx))
-        if name == "isinstance":
+        if name == "isinstance" and len(args) == 2:
+            v = ev(args[0])
+            tn = A.dotted(args[1])
+            names = [A.dotted(x) for x in args[1].elts] if isinstance(args[1], ast.Tuple) else [tn]
+            pyt = {"tuple": tuple, "list": list, "dict": dict, "str": str, "bool": bool, "set": set}
+            if all(n in pyt for n in names) and isinstance(v, (tuple, list, dict, str, bool, set, Poly)):
+                return any(isinstance(v, pyt[n]) for n in names)
             raise Undecided("isinstance")
+        if name == "set" and isinstance(f, ast.Name):
+            return set(ev(args[0])) if args else set()
         raise Undecided(f"call {A.short(e.func, 40)}")
 
 
